@@ -350,6 +350,14 @@ def gen_c04(seed, tier):
                 # the bearer confirmation names the address it was issued to, and the application tells the
                 # library which address the response came from (the same one)
                 d["scd_address"] = "10.0.0.5"
+            if p.get("encrypt") and r.chance(0.5):
+                # a second, fresh assertion in the clear travels with the encrypted one that carries the bounds under
+                # test: every assertion's windows count, not only the first one's
+                d["plain_next_to_encrypted"] = {"signed": bool(p.get("sign_assertion"))}
+                if r.chance(0.4):
+                    d["plain_next_to_encrypted"]["where"] = "wrapper"
+                if not p.get("sigalg"):
+                    p["sigalg"], p["digalg"] = r.pick(SIGALGS), r.pick(DIGALGS)
             p["dialect"] = d
             offs = {"cond_nooa": d["cond_nooa"], "cond_nb": d["cond_nb"], "scd_nooa": d["scd_nooa"],
                     "scd_nb": d["scd_nb"], "session": d["session_nooa"]}
@@ -559,6 +567,21 @@ def gen_c08(seed, tier):
         p["identity"] = g.identity(hostile=0.6)
         p["lifetime"] = r.pick([300, 900, 3600])
         p["sp_policy_section"] = r.chance(0.3)
+        if not ec_profiles and not sp.get("req_attrs") and not sp.get("opt_attrs") and p["identity"] and r.chance(0.15):
+            # a release policy with attribute_restrictions: some attributes listed without patterns, some with a
+            # pattern that only part of their values match, some not listed at all
+            import re as _re
+            rs = {}
+            for nm, vals in p["identity"].items():
+                c = r.pick(["all", "some", "some", "unlisted"])
+                if c == "all":
+                    rs[nm] = None
+                elif c == "some":
+                    keep = r.sample(vals, r.randrange(0, len(vals) + 1))
+                    rs[nm] = [".*" + _re.escape(v_[:18]) for v_ in keep if len(v_) >= 8] or ["^never-matches$"]
+            if rs:
+                p["attr_restrictions"] = rs
+                p["sp_policy_section"] = False
         if ec_profiles:
             p["entity_categories"] = ec_profiles
             p["sp_policy_section"] = False
@@ -807,8 +830,10 @@ def gen_c03(seed, tier):
     for i in range(nsp):
         wrs = g.rl.chance(0.6)
         sps.append(g.add_sp(i, wrs=wrs, was=(not wrs) or g.rl.chance(0.3),
-                            only_md_keys=g.rl.pick([None, True, False, False]),
+                            only_md_keys=g.rl.pick([None, True, True, False, False]),
                             sign_requests=g.rl.chance(0.5)))
+        if sps[-1].get("only_md_keys") and g.rl.chance(0.7):
+            sps[-1]["md_keys_text"] = g.rl.pick(["True", "True", "true", "yes", "1", "on"])
     g.draw_skews(choices=(0, 0, 1))
     clean = (seed % 4 == 0)
     g.knobs = {"class": "clean" if clean else "faulty"}
@@ -1099,6 +1124,18 @@ def gen_c20(seed, tier):
             p["sign_assertion"] = True
         p["identity"] = g.identity(hostile=0.1, empty_ok=False)
         p["lifetime"] = 3600
+        if r.chance(0.1):
+            # single logout driven by the client itself over SOAP; the answer's verification is faulted (or not),
+            # afterwards the same logout with a healthy tool goes through (bounded liveness)
+            mode_ = r.pick(modes_for("verify"))
+            # (the request goes out unsigned: do_logout() with a signed request over SOAP ends in an AttributeError
+            # in this code base - apply_binding(..., sign=True) is handed the already signed text - DESIGN.md section 15)
+            g.ev("slo", sp=sp["name"], idp=idp["name"], sign_req=False, sign_answer=r.chance(0.85),
+                 **({"tf": [{"op": "verify", "ord": "all", "mode": mode_, "variant": r.randrange(10 ** 6)}]} if r.chance(0.8) else {}))
+            g.tick()
+            g.ev("slo", sp=sp["name"], idp=idp["name"], sign_req=False, sign_answer=True)
+            g.tick()
+            continue
         site = r.pick(["verify", "verify", "verify", "decrypt", "sign", "encrypt", "req-verify"])
         place = r.pick([0, 1, "all", "all", "1+", "2+"])
         if site == "decrypt" or site == "encrypt":
@@ -1220,7 +1257,7 @@ def gen_c10(seed, tier):
                 g.ev("req", f=f, mut={"k": "xml", "where": "soap-wrap", "ids": r.pick(["other", "other", "same"]),
                                       "sig": r.pick(["moved", "moved", "copied"]), "place": r.pick(["header", "header", "after-body"])}, sub=g.sub())
             elif fk in ("xml-attr", "xml-sig"):
-                g.ev("req", f=f, mut={"k": "xml", "where": "attr" if fk == "xml-attr" else r.pick(["sigvalue", "digest"]),
+                g.ev("req", f=f, mut={"k": "xml", "where": "attr" if fk == "xml-attr" else r.pick(["sigvalue", "digest", "sigvalue-empty"]),
                                       "target": "response"}, sub=g.sub())
             elif fk == "dup":
                 g.ev("req", f=f)
@@ -1293,7 +1330,7 @@ def gen_c10(seed, tier):
                                   "attr": r.pick(["ID", "ID", "Version", "IssueInstant"]),
                                   "mode": r.pick(["empty", "empty", "absent"])}, sub=g.sub())
         elif fk in ("xml-attr", "xml-text", "xml-sig"):
-            where = {"xml-attr": "attr", "xml-text": "text", "xml-sig": r.pick(["sigvalue", "digest"])}[fk]
+            where = {"xml-attr": "attr", "xml-text": "text", "xml-sig": r.pick(["sigvalue", "digest", "sigvalue-empty"])}[fk]
             g.ev("req", f=f, mut={"k": "xml", "where": where, "target": "response"}, sub=g.sub())
         elif fk == "dup":
             g.ev("req", f=f)
